@@ -35,7 +35,7 @@ type X2Config struct {
 	Pipes        []string
 	LogDir       bool // real FileOutputStore in a temp directory; the mock runner writes a log per task
 	Initial      *store.PersistedData
-	Restart      bool // C10: save + restart check at every new state
+	Restart      bool     // C10: save + restart check at every new state
 	Prefix       []XEvent // the search starts from the state this history leads to (Depth counts the events after it)
 	logDir       string
 }
